@@ -23,7 +23,7 @@
 EXTENDS Serde, Json
 
 CONSTANTS Mode, MaxNodes, MaxGraphs, MaxDepth, MaxSlots, MaxIO, MaxNodeIO, MaxInits,
-          Irvs, WithFunc, EmitOn
+          Irvs, WithFunc, EmitOn, MaxAnn
 
 NameSeq == <<"a", "b", "c">>
 Names == RangeS(NameSeq)
@@ -124,9 +124,10 @@ BAddNIn(g, k, nm)  == Room /\ Len(p.gs[g].nodes[k].ins) < MaxNodeIO
                      /\ p' = [p EXCEPT !.gs[g].nodes[k].ins = Append(@, nm)]
 BAddNOut(g, k, nm) == Room /\ Len(p.gs[g].nodes[k].outs) < MaxNodeIO
                      /\ p' = [p EXCEPT !.gs[g].nodes[k].outs = Append(@, nm)]
-BAddVI(g, nm)   == Room /\ nm \notin p.gs[g].vinfo /\ Upd(g, "vinfo", p.gs[g].vinfo \cup {nm})
-BAddQ(g, nm)    == Room /\ p.gs[g].kind # "func" /\ nm \notin p.gs[g].quant /\ Upd(g, "quant", p.gs[g].quant \cup {nm})
-BAddUntyped(g, nm) == Mode = "any" /\ Room /\ nm \notin p.gs[g].untyped
+AnnRoom(g) == Cardinality(p.gs[g].vinfo) + Cardinality(p.gs[g].quant) + Cardinality(p.gs[g].untyped) < MaxAnn
+BAddVI(g, nm)   == Room /\ AnnRoom(g) /\ nm \notin p.gs[g].vinfo /\ Upd(g, "vinfo", p.gs[g].vinfo \cup {nm})
+BAddQ(g, nm)    == Room /\ AnnRoom(g) /\ p.gs[g].kind # "func" /\ nm \notin p.gs[g].quant /\ Upd(g, "quant", p.gs[g].quant \cup {nm})
+BAddUntyped(g, nm) == Mode = "any" /\ Room /\ AnnRoom(g) /\ nm \notin p.gs[g].untyped
                      /\ nm \in RangeS(p.gs[g].ins) \cup RangeS(p.gs[g].outs) \cup p.gs[g].vinfo
                      /\ Upd(g, "untyped", p.gs[g].untyped \cup {nm})
 \* graphs are numbered in non-decreasing (parent, node) order: one flat numbering per tree
@@ -176,10 +177,6 @@ Rec(e, d, v) ==
     norm |-> IF v /\ Mode = "valid" THEN Compact(Norm(e)) ELSE <<>>,
     obs |-> IF d.err = "" /\ Mode = "any" THEN ObsX(d.s) ELSE <<>> ]
 
-\* C02 and C17 of module Serde on the proto of this state (d is shared by both)
-HoldsC02(e, d, v) == v => (d.err = "" /\ EqProto(Ser(d.s), Norm(e)))
-HoldsC17(d) == d.err = "" => (C01Inv(Obs(d.s)) /\ SdCountOK(d.s) /\ OwnerOK(d.s) /\ Fixpoint(d.s))
-
 \* one evaluation per proto: the record carries both verdicts, the invariant is their conjunction
 \* (TLC evaluates invariants also on successors that the CONSTRAINT discards: those are skipped here)
 Holds == IF ~Canonical(p) THEN TRUE
@@ -187,13 +184,10 @@ Holds == IF ~Canonical(p) THEN TRUE
                   v == Valid(e)
               IN IF Mode = "valid" /\ ~v THEN TRUE ELSE
               LET d == Deser(e)
-                  c02 == HoldsC02(e, d, v)
-                  c17 == HoldsC17(d)
+                  c02 == C02With(e, d)
+                  c17 == C17With(d)
               \* emitting: the verdicts travel in the record and the search goes on (every counterexample of
               \* the model is then tried on the code); not emitting: a plain invariant
               IN IF EmitOn THEN PrintT(ToJson([c02 |-> c02, c17 |-> c17] @@ Rec(e, d, v)))
                  ELSE c02 /\ c17
-\* the same formulas through the module-level definitions (used by the tiny *_def.cfg cross-check)
-InvC02Def == C02(Explicit(p))
-InvC17Def == C17(Explicit(p))
 =============================================================================
